@@ -78,6 +78,9 @@ MUTANTS = [  # (contract module, qualname, file, regex, replacement, expect)  ex
  ("contracts.c18", "Independencies.entails", "pgmpy/independencies/Independencies.py", r"implications = self.closure\(\).get_assertions\(\)", "implications = self.get_assertions()", "break"),
  ("contracts.c18", "Independencies.is_equivalent", "pgmpy/independencies/Independencies.py", r"return self.entails\(other\) and other.entails\(self\)", "return self.entails(other) or other.entails(self)", "break"),
  ("contracts.c18", "Independencies.contains", "pgmpy/independencies/Independencies.py", r"return assertion in self.get_assertions\(\)", "return assertion not in self.get_assertions()", "break"),
+ ("contracts.c08", "DAG.get_independencies", "pgmpy/base/DAG.py", r"                        rest\n                        - set\(observed\)\n", "                        rest\n", "break"),
+ ("contracts.c08", "DAG.get_independencies", "pgmpy/base/DAG.py", r"for r in range\(len\(rest\)\):", "for r in range(len(rest) - 1):", "break"),
+ ("contracts.c08", "DAG.get_independencies", "pgmpy/base/DAG.py", r"if d_seperated_variables:", "if not d_seperated_variables:", "break"),
 ]
 
 
